@@ -32,7 +32,7 @@ package varlink
 //@   modifies wcount, wlastErr, wlastCont, wlastParams, dcount, dlastIface, dlastMethod, dlastResult, gm
 //@   ensures dcount == old(dcount) + 1 && dlastIface == self && dlastMethod == methodname && dlastResult == result && wcount >= old(wcount)
 
-//@ func (*Call).sendMessage {C01 C02 C04 C10 C12 | safety: C10}
+//@ func (*Call).sendMessage {C01 C02 C04 C10 C12 C17 | safety: C10}
 //@   requires [nn] callOK(c) && r != nil
 //@   modifies wcount, wlastErr, wlastCont, wlastParams, gm
 //@   ensures [wrote C01 C02 C04 C10 C12] wrote1(c)
@@ -42,6 +42,7 @@ package varlink
 //@   assert [marshal-arg C02] at call(Marshal)#1 : arg0 == box(ptr(serviceReply), r)
 //@   assert [frame C02] at call(Write)#1 : len(arg2) == len(gm) + 1 && arg2[len(arg2) - 1] == 0 && (forall i int :: 0 <= i && i < len(gm) ==> arg2[i] == gm[i])
 //@   assert [conn C01 C02] at call(Write)#1 : arg0 == c.Conn
+//@   assert [own-ctx C17] at call(Write)#1 : arg1 == param1
 //@   ghostset at call(Write)#1 : wlastErr = r.Error
 //@   ghostset at call(Write)#1 : wlastCont = r.Continues
 //@   ghostset at call(Write)#1 : wlastParams = r.Parameters
@@ -561,7 +562,7 @@ package varlink
 //@   assert [mni-dec C12] at call(Unmarshal)#3 : arg0 == *errorRawParameters && arg1 == boxed(addr_param) && e.Name == "org.varlink.service.MethodNotImplemented"
 //@   assert [ivp-dec C12] at call(Unmarshal)#4 : arg0 == *errorRawParameters && arg1 == boxed(addr_param) && e.Name == "org.varlink.service.InvalidParameter"
 
-//@ func (*Connection).Send {C02 C03 C11 | safety: C11}
+//@ func (*Connection).Send {C02 C03 C11 C17 | safety: C11}
 //@   schema [call-keys C03] (*Connection).Send:call => serviceCall
 //@   schema [reply-keys C03] serviceReply => (*Connection).Send$1:reply
 //@   requires [nn] c != nil && c.conn != nil && c.conn.conn != nil && ctx != nil
@@ -575,8 +576,9 @@ package varlink
 //@   ensures [fail C11] result1 != nil ==> result0 == nil
 //@   assert [fields C03 C11] at call(Marshal)#1 : m.Method == method && m.Parameters == parameters && m.More == (flags & More != 0) && m.Oneway == (flags & Oneway != 0) && m.Upgrade == (flags & Upgrade != 0) && arg0 == boxed(m)
 //@   assert [frame C02] at call(Write)#1 : len(arg2) == len(gm) + 1 && arg2[len(arg2) - 1] == 0 && (forall i int :: 0 <= i && i < len(gm) ==> arg2[i] == gm[i]) && arg0 == c.conn
+//@   assert [own-ctx C17] at call(Write)#1 : arg1 == param1
 
-//@ func (*Connection).Send$1 {C02 C03 C11 C12 | safety: C11}
+//@ func (*Connection).Send$1 {C02 C03 C11 C12 C17 | safety: C11}
 //@   requires [nn] *c != nil && cstruct((*c).conn) && ctx != nil
 //@   modifies pointee(outParameters), gRdErr, gDecErr2, gRErr, gRCont, gRParams, gDispatched, gUnm, dlRpast, dlRzero, dlRctx, helper, gDlFail, gCancelled, gCtxErr, sockOff, bufLo, bufHi, gRdCalls, gSends, gSentVal, gSentErr
 //@   ghostset at call(ReadBytes)#1 : gRdErr = res1
@@ -592,12 +594,13 @@ package varlink
 //@   ensures [remote C11 C12] gRdErr == nil && gDecErr2 == nil && gRErr != "" ==> result0 == 0 && result1 == gDispatched && result1 != nil
 //@   ensures [cont C03 C11] gRdErr == nil && gDecErr2 == nil && gRErr == "" ==> result1 == nil && (gRCont ==> result0 == 4) && (!gRCont ==> result0 == 0)
 //@   assert [reader C02 C18] at call(ReadBytes)#1 : arg0 == (*c).conn && arg2 == 0
+//@   assert [own-ctx C17] at call(ReadBytes)#1 : arg1 == param0
 //@   assert [strip C02 C11] at call(Unmarshal)#1 : arg0 == out[0:len(out) - 1] && arg1 == boxed(addr_m)
 //@   assert [decode-fresh C03 C11] at call(Unmarshal)#1 : zeropointee(arg1)
 //@   assert [errval C11 C12] at call(DispatchError)#1 : arg0.Name == m.Error && arg0.Parameters == boxed(m.Parameters) && m.Error != ""
 //@   assert [params C03] at call(Unmarshal)#2 : arg0 == *m.Parameters && arg1 == outParameters && m.Error == ""
 
-//@ func (*Connection).Call {C03 C11 C13 | safety: C11}
+//@ func (*Connection).Call {C03 C11 C13 C17 | safety: C11}
 //@   requires [nn] c != nil && c.conn != nil && c.conn.conn != nil && ctx != nil
 //@   modifies gSendErr, gRecvRes, gSendWrites, gm, dlWpast, dlWzero, dlWctx, helper, gDlFail, gCancelled, gCtxErr, gWrCalls, gSends, gSentN, gSentErr
 //@   ghostset at call(Send)#1 : gSendErr = res1
@@ -606,6 +609,8 @@ package varlink
 //@   ensures [recv C11] gSendErr == nil ==> result == gRecvRes
 //@   assert [args C03 C13] at call(Send)#1 : arg0 == c && arg2 == method && arg3 == boxed(addr_parameters) && arg4 == 0
 //@   assert [out C03 C13] at call(dynamic)#1 : arg1 == outParameters
+//@   assert [own-ctx C17] at call(Send)#1 : arg1 == param1
+//@   assert [own-ctx-recv C17] at call(dynamic)#1 : arg0 == param1
 
 //@ ghost gDescOut string
 //@ ghost gCallErr iface
